@@ -643,6 +643,23 @@ var BoxTypes = []string{"auxC", "auxl", "av01", "av1C", "avcC", "CCDT", "CCTP", 
 // end of the first 4 KiB of the file (the reader's buffer): a parser that slices past the bytes it asked for runs out
 // of buffer there instead of silently reading whatever follows.
 func SmallBoxFilesAtEdge(lens, gaps []int, visit func(name string, kind string, data []byte)) {
+	boxFilesAtEdge(false, lens, gaps, visit)
+}
+
+// LargeBoxFilesAtEdge: the box under test has a 64-bit size header (size field 1, the real size in the eight bytes after
+// the type) and a payload of 0, 4 or 8 bytes; its 16-byte header starts 1..24 bytes before the end of the first 4 KiB, so
+// that the size/type words, the 64-bit size or the payload are the first bytes the reader's buffer does not hold yet.
+func LargeBoxFilesAtEdge(lens []int, visit func(name string, kind string, data []byte)) {
+	for _, n := range lens {
+		var gaps []int
+		for before := 1; before <= 24; before++ {
+			gaps = append(gaps, before-16-n) // payload ends gap bytes before the edge (negative: after it)
+		}
+		boxFilesAtEdge(true, []int{n}, gaps, visit)
+	}
+}
+
+func boxFilesAtEdge(large bool, lens, gaps []int, visit func(name string, kind string, data []byte)) {
 	for _, typ := range BoxTypes {
 		for _, n := range lens {
 			for _, gap := range gaps {
@@ -652,7 +669,7 @@ func SmallBoxFilesAtEdge(lens, gaps []int, visit func(name string, kind string, 
 				}
 				for _, where := range []string{"meta", "moov", "canon"} {
 					build := func(pad int) ([]byte, *Box) {
-						tb := &Box{Type: typ, Data: payload}
+						tb := &Box{Type: typ, Data: payload, Large: large}
 						first := &Box{Type: "free", Data: spaces(pad)}
 						sib := &Box{Type: "free", Data: make([]byte, 24)}
 						var top []*Box
@@ -683,7 +700,11 @@ func SmallBoxFilesAtEdge(lens, gaps []int, visit func(name string, kind string, 
 					if where == "meta" {
 						kind = "heif"
 					}
-					visit(fmt.Sprintf("%s-in-%s-len%d-gap%d", typ, where, n, gap), kind, o)
+					name := fmt.Sprintf("%s-in-%s-len%d-gap%d", typ, where, n, gap)
+					if large {
+						name = "large-" + name
+					}
+					visit(name, kind, o)
 				}
 			}
 		}
